@@ -71,6 +71,10 @@ class Ctx:
         for s in samples:
             if len(r['samples']) < 6:
                 r['samples'].append(s)
+        # the floor is the count confirmed by hand on the reference tree; a clean-up that merges or extracts code legitimately
+        # lowers the count somewhat, so the analysis only declares itself blind below 60% of it (small floors are exact)
+        if floor > 4:
+            floor = max(4, int(floor * 0.6))
         if instances < floor and any(rp.rule == rule for rp in self.reports):
             # the rule has already named the construct that went missing or wrong: the shortfall is explained by its own
             # report, which must not be hidden behind an analysis error
